@@ -16,7 +16,8 @@ CMDS = [(['reg'], (), {}), (['reg'], (), {'oldReg': True}), (['reg'], (), {'sing
         (['bal'], (), {}), (['bal'], (), {'collapse': True}), (['bal'], (), {'singleElement': 'calories'}),
         (['report', 'totals'], (), {}), (['report', 'unresolved'], (), {}), (['report', 'quantity'], (), {}), (['report', 'quantity'], (), {'desc': True}),
         (['report', 'element-total'], ('calories',), {}), (['report', 'element-total'], ('calories',), {'desc': True}),
-        (['csv', 'database-resolved'], (), {}), (['csv', 'log'], (), {}), (['summary'], ('2021/01/24',), {}), (['print'], (), {})]
+        (['csv', 'database-resolved'], (), {}), (['csv', 'log'], (), {}), (['summary'], ('2021/01/24',), {}), (['print'], (), {}),
+        (['gen', 'markdown'], (), {}), (['stats'], (), {})]
 
 
 def gen(g, count, reps):
@@ -83,7 +84,7 @@ def gen(g, count, reps):
         files = base_files(g, book, log)
         n = r.choice([None, None, spec.max_height(spec.book_map(book)), spec.max_height(spec.book_map(book)) + 1])
         for path, args, s in CMDS:
-            c = app(path, files, args=args, s=s, g={'maxdepth': n} if n else {}, reps=reps, exact=exact, kind=' '.join(path + [k for k in s]))
+            c = app(path, files, args=args, s=s, g={'maxdepth': n} if n else {}, reps=reps, exact=exact, kind=' '.join(path + [k for k in s]), disk=(path == ['stats']))
             c.meta['near_ties'] = not exact
             c.meta.update({'log': log, 'book': book})
             cases.append(c)
